@@ -171,7 +171,7 @@ func runC07(c *vlib.Check) {
 	c.Rule = fmt.Sprintf("explicit-state search over transport answers: message sequences of length <=%d over sizes {8,16,24,520,1032} and top-level padded scalars (5-byte text, 9-byte byte string, integer); every Read(p) is answered with a size from {len(p),1,2,7,8,len(p)-1} "+
 		"(deviation = any answer other than len(p), bound %d, iterated); all 2^(L-1) segmentations of every stream of L<=%d bytes; truncation of every stream at every offset (with full reads and with 1-byte reads); "+
 		"announced value lengths {limit-24 .. limit+8 incl. unaligned ones, 2^31-16 .. 2^31+8, 0xBFFFFFF8, 2^32-16 .. 2^32-1} against limits {64, 1 MiB}; every answer sequence also with the limit set to the largest message of the sequence (a per-message limit must not act on the stream total); "+
-		"size histories: all ordered pairs of message sizes 16..2048 step 8 (thorough: ..8192, and triples on a 136-byte grid) on one stream, with and without that limit. Reference model: split the byte stream at the announced padded lengths. "+
+		"size histories: all ordered pairs of message sizes 16..2048 step 8 (thorough: ..8192, and triples on a 136-byte grid) on one stream, with and without that limit, and all ordered pairs of large messages {4 KiB .. 128 KiB, around powers of two}. Reference model: split the byte stream at the announced padded lengths. "+
 		"states = distinct (stream, answer sequence) pairs, transitions = Recv calls", maxSeq, maxDev, segL)
 	c.Assumptions = []string{"the transport never returns more than len(p) bytes and returns at least one byte per successful Read"}
 	var seqs [][]int
@@ -317,6 +317,28 @@ func runC07(c *vlib.Check) {
 		}
 		c.Mu(func() { c.Evaluations += int64(2 * len(grid)); c.DistinctN += int64(2 * len(grid)) })
 		atomic.AddInt64(&states, int64(2*len(grid)))
+	})
+	// large messages (around the sizes where a growing encoder / receive buffer is reallocated), all ordered pairs
+	var large [][]byte
+	for _, sz := range []int{4096, 8184, 8192, 8200, 16384, 16392, 32776, 65536, 65544, 131080} {
+		large = append(large, c07Message(sz, 0x5C))
+	}
+	vlib.Parallel(len(large), 0, func(i int) {
+		for j := range large {
+			msgs := [][]byte{large[i], large[j], grid[3]}
+			var stream []byte
+			for _, m := range msgs {
+				stream = append(stream, m...)
+			}
+			for _, l := range []int{0, max(len(large[i]), len(large[j]))} {
+				r := &chunkReader{data: stream}
+				c07RunLimit(c, msgs, len(stream), r, l, func() map[string]any {
+					return map[string]any{"kind": "size-history", "message_sizes": []int{len(large[i]), len(large[j]), len(grid[3])}, "limit": l}
+				})
+			}
+		}
+		c.Mu(func() { c.Evaluations += int64(2 * len(large)); c.DistinctN += int64(2 * len(large)) })
+		atomic.AddInt64(&states, int64(2*len(large)))
 	})
 	if c.Thorough() {
 		var coarse [][]byte
